@@ -600,6 +600,10 @@ func c07(w *core.World, r *core.Report) {
 	if c != nil {
 		ruleOffsetWithRunId(w, r, c)
 	}
+	r.Rule("R07.9", "the database said to hold the run-id fields already is the one the connection is in: the label the batch sender looks up is never the constant label of an item the sender made itself (keep-alive)", 1)
+	if c != nil {
+		ruleKnownDbIsConnectionDb(w, r, c)
+	}
 	r.Rule("R07.6", "the replay's start offset is the cache reader's reported position, and that is the requested offset (log reader) or the snapshot's own offset", 3)
 	ruleReplayStartOffset(w, r)
 	r.Rule("R17.10", "a running output adopts a new replication id only after its checkpoint was moved there (shared with C17)", 1)
